@@ -13,7 +13,7 @@ Every ``gen_*`` function draws an IR version in 3..13 (unless given) and toggles
 independently: a feature is enabled for the case with probability ``p_feature`` (always when listed
 in ``force``, never when not in ``features`` or when the IR version predates it, see
 ``FEATURE_MIN_IR``), and an enabled feature is then applied at each site where it fits with a site
-probability.  ``used`` contains the features that were actually applied somewhere in the returned
+probability (>= 0.9 for forced features).  ``used`` contains the features that were actually applied somewhere in the returned
 proto; ``ProtoGen.carriers`` the carrier kinds that occur in it (model, graph, function, node,
 tensor, attribute, value_info, type).
 
@@ -48,10 +48,14 @@ from typing import Iterable
 import onnx
 
 __all__ = [
-    "ALL_FEATURES", "FEATURE_MIN_IR", "OUTSIDE_BACKEND_CORPUS", "DTYPES", "ProtoGen",
+    "KINDS", "ALL_FEATURES", "FEATURE_MIN_IR", "OUTSIDE_BACKEND_CORPUS", "DTYPES", "ProtoGen",
     "gen_model", "gen_graph", "gen_function", "gen_node", "gen_tensor", "gen_attribute",
     "gen_value_info", "gen_type",
 ]
+
+#: message kinds ``ProtoGen.build`` can produce (the kinds ir.from_proto accepts)
+KINDS = ("ModelProto", "GraphProto", "FunctionProto", "NodeProto", "TensorProto", "AttributeProto",
+         "ValueInfoProto", "TypeProto")
 
 TP = onnx.TensorProto
 AP = onnx.AttributeProto
@@ -144,8 +148,9 @@ _TEXT = ("", "x", "doc", "Some documentation.", "line1\nline2", "café 日本", 
 class ProtoGen:
     """One generation context: random source, IR version, enabled features, name allocator.
 
-    Public builders (each returns a fresh message): ``model()``, ``graph()``, ``function()``,
-    ``node()``, ``tensor()``, ``attribute()``, ``value_info()``, ``type()``.
+    Public builders (each returns a fresh message): ``build(kind)`` for a stand-alone message of
+    any kind, or ``model()``, ``graph()``, ``function()``, ``node()``, ``tensor()``, ``attribute()``,
+    ``value_info()``, ``type()`` to compose messages sharing one name allocator.
     After building, ``used`` is the set of features applied and ``carriers`` the carrier kinds
     present.
     """
@@ -167,6 +172,7 @@ class ProtoGen:
         self.ir_version = ir_version
         allowed = set(ALL_FEATURES if features is None else features)
         force = set(force)
+        self.forced: set[str] = force
         self.enabled: set[str] = set()
         for f in ALL_FEATURES:  # fixed order: determinism
             draw = rng.random()
@@ -188,6 +194,9 @@ class ProtoGen:
 
     # ---- small helpers --------------------------------------------------------------------------
     def on(self, feature: str, p: float = 0.7) -> bool:
+        """Site-level decision: apply an enabled feature here?  Forced features apply with p >= 0.9."""
+        if feature in self.forced:
+            p = max(p, 0.9)
         if feature in self.enabled and self.rng.random() < p:
             self.used.add(feature)
             return True
@@ -226,7 +235,9 @@ class ProtoGen:
         by_group: dict[str, list[str]] = {}
         for n in names:
             by_group.setdefault(DTYPES[n][4], []).append(n)
-        group = self.rng.choice(sorted(by_group))
+        forced = sorted(g for g in by_group if g in self.forced)
+        draw = self.rng.random()
+        group = self.rng.choice(forced) if forced and draw < 0.85 else self.rng.choice(sorted(by_group))
         if group != "base":
             self.used.add(group)
         return self.rng.choice(by_group[group])
@@ -367,7 +378,8 @@ class ProtoGen:
             return
         typed_ok = "typed_storage" in self.enabled
         raw_ok = "raw_storage" in self.enabled or not typed_ok
-        use_typed = typed_ok and (not raw_ok or rng.random() < 0.5)
+        p_typed = 0.9 if "typed_storage" in self.forced and "raw_storage" not in self.forced else 0.5
+        use_typed = typed_ok and (not raw_ok or rng.random() < p_typed)
         if use_typed:
             self.used.add("typed_storage")
             self._typed_payload(t, dt_name, n)
@@ -635,10 +647,17 @@ class ProtoGen:
         graph_outs = rng.sample(node_outs, min(len(node_outs), rng.randint(1, 2)))
         for nm in graph_outs:
             self._value_info_into(g.output.add(), nm, may_be_untyped=True)
-        if inputs and self.on("passthrough_output", 0.3):
-            pick = rng.choice(inputs)
-            src = next(v for v in g.input if v.name == pick)
-            g.output.add().CopyFrom(src)  # the same value: identical declaration
+        with_entry = {v.name for v in g.value_info}
+        passable = inputs + [nm for nm in init_names if nm not in inputs and nm not in with_entry]
+        if passable and self.on("passthrough_output", 0.3):
+            # a graph output that is directly a graph input or an initializer
+            pick = rng.choice(passable)
+            if pick in inputs:
+                src = next(v for v in g.input if v.name == pick)
+                g.output.add().CopyFrom(src)  # the same value: identical declaration
+            else:
+                tensor = next(t for t in g.initializer if t.name == pick)
+                self._value_info_into(g.output.add(), pick, for_tensor=tensor)
         annotatable += node_outs
         for nm in node_outs:
             if nm not in graph_outs and self.on("value_info", 0.5):
@@ -712,6 +731,8 @@ class ProtoGen:
             node_outs.extend(outs)
             local.extend(outs)
         f.output.extend(rng.sample(node_outs, min(len(node_outs), rng.randint(1, 2))))
+        if inputs and self.on("passthrough_output", 0.2):
+            f.output.append(rng.choice(inputs))  # a function output that is directly an input
         domains = self._domains
         self._func_attrs, self._domains = saved
         domains.setdefault("", rng.randint(13, 23))
@@ -780,64 +801,84 @@ class ProtoGen:
         self._opsets_into(m.opset_import, self._domains)
         return m
 
+    # ---- any kind -------------------------------------------------------------------------------
+    def build(self, kind: str):
+        """A stand-alone message of the given kind (one of ``KINDS``)."""
+        rng = self.rng
+        if kind == "ModelProto":
+            return self.model()
+        if kind == "GraphProto":
+            return self.graph(outer=[self.name("outer") for _ in range(rng.randint(0, 2))])
+        if kind == "FunctionProto":
+            return self.function(overload="ov1" if self.on("overloads", 0.6) else "")
+        if kind == "NodeProto":
+            if self.on("node_device_config", 1.0):
+                self._configs = ["mesh2", "tp4"]  # stand-alone node: the ids name no model
+            return self.node()
+        if kind == "TensorProto":
+            return self.tensor(named=rng.random() < 0.8)
+        if kind == "AttributeProto":
+            if self.ir_version >= 8 and rng.random() < 0.15:  # a reference attribute on its own
+                a = onnx.AttributeProto()
+                a.name = rng.choice(_WORDS)
+                a.ref_attr_name = rng.choice(("axis", "mode", "body"))
+                a.type = rng.choice(list(ATTR_KINDS.values()))
+                if self.on("attr_doc", 0.6):
+                    a.doc_string = self.text()
+                self.used.add("ref_attrs")
+                self.carriers.add("attribute")
+                return a
+            return self.attribute(visible=[self.name("outer") for _ in range(2)])
+        if kind == "ValueInfoProto":
+            return self.value_info()
+        if kind == "TypeProto":
+            return self.type()
+        raise ValueError(f"unknown message kind {kind!r}; expected one of {KINDS}")
+
+
 
 # ---- functional API -----------------------------------------------------------------------------
 
 
-def _make(rng, features, force, ir_version) -> ProtoGen:
-    return ProtoGen(rng, features, force=force, ir_version=ir_version)
+def _gen(kind: str, rng, features, force, ir_version):
+    g = ProtoGen(rng, features, force=force, ir_version=ir_version)
+    return g.build(kind), g.used
 
 
 def gen_model(rng: random.Random, features: Iterable[str] | None = None, *, force: Iterable[str] = (),
               ir_version: int | None = None) -> tuple[onnx.ModelProto, set[str]]:
-    """A well-formed ModelProto and the set of features used in it."""
-    g = _make(rng, features, force, ir_version)
-    return g.model(), g.used
+    """A well-formed ModelProto and the set of features used in it.  ``features`` restricts the
+    features that may be drawn (default: all), ``force`` switches features on for sure,
+    ``ir_version`` fixes the IR version (default: drawn from 3..13)."""
+    return _gen("ModelProto", rng, features, force, ir_version)
 
 
 def gen_graph(rng, features=None, *, force=(), ir_version=None) -> tuple[onnx.GraphProto, set[str]]:
-    g = _make(rng, features, force, ir_version)
-    return g.graph(), g.used
+    """A stand-alone GraphProto (may name up to two outer values it does not define)."""
+    return _gen("GraphProto", rng, features, force, ir_version)
 
 
 def gen_function(rng, features=None, *, force=(), ir_version=None) -> tuple[onnx.FunctionProto, set[str]]:
-    g = _make(rng, features, force, ir_version)
-    ov = "ov1" if g.on("overloads", 0.6) else ""
-    return g.function(overload=ov), g.used
+    return _gen("FunctionProto", rng, features, force, ir_version)
 
 
 def gen_node(rng, features=None, *, force=(), ir_version=None) -> tuple[onnx.NodeProto, set[str]]:
-    g = _make(rng, features, force, ir_version)
-    if g.on("node_device_config", 1.0):
-        g._configs = ["mesh2", "tp4"]  # stand-alone node: configuration ids name no model
-    return g.node(), g.used
+    """A stand-alone NodeProto; its inputs name values outside the message."""
+    return _gen("NodeProto", rng, features, force, ir_version)
 
 
 def gen_tensor(rng, features=None, *, force=(), ir_version=None) -> tuple[onnx.TensorProto, set[str]]:
-    g = _make(rng, features, force, ir_version)
-    return g.tensor(named=rng.random() < 0.8), g.used
+    return _gen("TensorProto", rng, features, force, ir_version)
 
 
 def gen_attribute(rng, features=None, *, force=(), ir_version=None) -> tuple[onnx.AttributeProto, set[str]]:
-    g = _make(rng, features, force, ir_version)
-    if g.ir_version >= 8 and rng.random() < 0.15:  # a reference attribute on its own
-        a = onnx.AttributeProto()
-        a.name = rng.choice(_WORDS)
-        a.ref_attr_name = rng.choice(("axis", "mode", "scale"))
-        a.type = rng.choice(list(ATTR_KINDS.values()))
-        if g.on("attr_doc", 0.6):
-            a.doc_string = g.text()
-        g.used.add("ref_attrs")
-        g.carriers.add("attribute")
-        return a, g.used
-    return g.attribute(visible=[g.name("outer") for _ in range(2)]), g.used
+    """An AttributeProto of a random enabled kind, or (15 % from IR 8) a reference attribute."""
+    return _gen("AttributeProto", rng, features, force, ir_version)
 
 
 def gen_value_info(rng, features=None, *, force=(), ir_version=None) -> tuple[onnx.ValueInfoProto, set[str]]:
-    g = _make(rng, features, force, ir_version)
-    return g.value_info(), g.used
+    return _gen("ValueInfoProto", rng, features, force, ir_version)
 
 
 def gen_type(rng, features=None, *, force=(), ir_version=None) -> tuple[onnx.TypeProto, set[str]]:
-    g = _make(rng, features, force, ir_version)
-    return g.type(), g.used
+    return _gen("TypeProto", rng, features, force, ir_version)
